@@ -79,6 +79,8 @@ def exec_schema(which, conc, nulls_seed=None):
     from py_gql import build_schema
     from py_gql.schema import EnumType, InterfaceType, ListType, NonNullType, ObjectType, ScalarType, UnionType
     schema = build_schema(valgamma.SDL if which == "val" else POOL_SDL)
+    if which == "val":
+        valgamma.install_any(schema)
     rng = random.Random(nulls_seed)
 
     def pick(t):
